@@ -851,7 +851,8 @@ Proof.
       * intros H. injection H as <-. apply all_good_spec in Hg. split; [exists ob; tauto|].
         intros _. exists ob. split; [reflexivity|]. apply String.eqb_eq in Hc. exact Hc.
       * destruct (lex_class_of p); discriminate.
-    + destruct (negb (existsb is_panic (fmt_prog true p)) && String.eqb (o_text ob) (render (fmt_prog true p))); [|discriminate].
+    + destruct (negb (existsb is_panic (fmt_prog true p)) && String.eqb (o_text ob) (render (fmt_prog true p)));
+        [|destruct (lex_class_of p); [destruct (all_good ob)|]; discriminate].
       destruct (all_good ob) eqn:Hg.
       * intros H. injection H as <-. apply all_good_spec in Hg. split; [exists ob; tauto|]. discriminate.
       * destruct (class_of p); discriminate.
